@@ -256,26 +256,41 @@ Definition alone_reason (kf : key) (sj : state) (f : entry) : Prop :=
 Definition Ralone (kf : key) (j : key) (sj : state) (f : entry) : Prop :=
   j = kf /\ e_kind f = KFwd /\ alone_reason kf sj f.
 
+(* sharper records kept for the queue: judged as itself (a tracking entry), or judged for the queue key qk *)
+Definition Rself (kt : key) (j : key) (sj : state) (e : entry) : Prop :=
+  j = kt /\ is_tracking e = true /\ expired (cf_tm cf) (now_used sj) (proto j) e = true.
+Definition Rpair (qk kt : key) (j : key) (sj : state) (e : entry) : Prop :=
+  (j = kt \/ (j = qk /\ exists f, lookup j (ct sj) = Some f /\ e_kind f = KFwd /\ e_rev f = kt)) /\
+  expired (cf_tm cf) (now_used sj) (proto j) e = true.
 Definition TJ pre kt ts := Seen (Rtrack kt) pre kt ts.
+Definition TS pre kt ts := Seen (Rself kt) pre kt ts.
+Definition TP pre qk kt ts := Seen (Rpair qk kt) pre kt ts.
 Definition FS pre kf ts rk := Seen (Rfwd kf rk) pre kf ts.
 Definition FSA pre kf ts := Seen (Ralone kf) pre kf ts.
 
 Definition Jq pre (qk : key) (qv : qval) : Prop :=
-  (proto (qv_key qv) = 0%N -> qk <> dummy -> TJ pre qk (qv_ts qv) \/ FSA pre qk (qv_ts qv)) /\
-  (proto (qv_key qv) <> 0%N -> TJ pre (qv_key qv) (qv_rts qv)).
+  (proto (qv_key qv) = 0%N -> qk <> dummy -> TS pre qk (qv_ts qv) \/ FSA pre qk (qv_ts qv)) /\
+  (proto (qv_key qv) <> 0%N -> TP pre qk (qv_key qv) (qv_rts qv)).
 Definition Ji pre (rk : key) (iv : qval) : Prop :=
-  (qv_key iv = dummy -> TJ pre rk (qv_ts iv)) /\
-  (qv_key iv <> dummy -> FS pre (qv_key iv) (qv_ts iv) rk /\ TJ pre rk (qv_rts iv)).
+  (qv_key iv = dummy -> TS pre rk (qv_ts iv)) /\
+  (qv_key iv <> dummy -> FS pre (qv_key iv) (qv_ts iv) rk /\ TP pre (qv_key iv) rk (qv_rts iv)).
+
+Lemma TS_TJ : forall pre kt ts, TS pre kt ts -> TJ pre kt ts.
+Proof. intros pre kt ts. apply Seen_weaken. intros j s e (A & B & C). split; auto. Qed.
+Lemma TP_TJ : forall pre qk kt ts, TP pre qk kt ts -> TJ pre kt ts.
+Proof.
+  intros pre qk kt ts. apply Seen_weaken. intros j s e ([A|(A & B)] & C); split; auto.
+Qed.
 
 Lemma Jq_step : forall pre qk qv x, Jq pre qk qv -> Jq (pre ++ [x]) qk qv.
 Proof.
-  intros pre qk qv x [H1 H2]. unfold TJ, FSA in *. split.
+  intros pre qk qv x [H1 H2]. unfold TS, TP, FSA in *. split.
   - intros A B. destruct (H1 A B) as [H|H]; [left|right]; apply Seen_step; exact H.
   - intros A. apply Seen_step. exact (H2 A).
 Qed.
 Lemma Ji_step : forall pre rk iv x, Ji pre rk iv -> Ji (pre ++ [x]) rk iv.
 Proof.
-  intros pre rk iv x [H1 H2]. unfold TJ, FS in *. split.
+  intros pre rk iv x [H1 H2]. unfold TS, TP, FS in *. split.
   - intros A. apply Seen_step. exact (H1 A).
   - intros A. destruct (H2 A) as [B C]. split; apply Seen_step; assumption.
 Qed.
@@ -354,7 +369,7 @@ Proof.
         destruct (expired (cf_tm cf) (now_used s) (proto k) v) eqn:Hex; [|discriminate]. inversion Hver; subst ts.
         psimpl. rewrite refresh_q, lookup_set. destruct (key_eqb qk k) eqn:Ek; auto.
         apply key_eqb_eq in Ek; subst qk. intros H; inversion H; subst qv. split.
-        -- intros _ _. left. eapply Seen_new; eauto. split; auto.
+        -- intros _ _. left. eapply Seen_new; eauto. split; auto. split; auto. unfold is_tracking. rewrite Hkind. reflexivity.
         -- intros A. exfalso. apply A. reflexivity.
       * (* forward *)
         unfold handle_nat. rewrite Hkind, refresh_ct, refresh_info, refresh_q.
@@ -362,8 +377,8 @@ Proof.
         destruct (lookup (e_rev v) (ct s)) as [r|] eqn:Hr.
         -- destruct (expired (cf_tm cf) (now_used s) (proto k) r) eqn:Hex; [|discriminate]. inversion Hver; subst ts.
            pose proof (Il _ _ Hr) as Hrle.
-           assert (HTJ : TJ (pre ++ [Judge k]) (e_rev v) (e_ls r)).
-           { eapply Seen_new; eauto. split; auto. right. exists v. auto. }
+           assert (HTJ : TP (pre ++ [Judge k]) k (e_rev v) (e_ls r)).
+           { eapply Seen_new; eauto. split; auto. right. split; auto. exists v. auto. }
            destruct (Z.eqb (e_ls v) (e_ls r) && (negb (cf_fix cf) || false)) eqn:Hcond.
            ++ psimpl. rewrite lookup_set. destruct (key_eqb qk k) eqn:Ek; auto.
               apply key_eqb_eq in Ek; subst qk. intros H; inversion H; subst qv. split.
@@ -426,8 +441,8 @@ Proof.
         destruct (lookup (e_rev v) (ct s)) as [r|] eqn:Hr.
         -- destruct (expired (cf_tm cf) (now_used s) (proto k) r) eqn:Hex; [|discriminate]. inversion Hver; subst ts.
            pose proof (Il _ _ Hr) as Hrle.
-           assert (HTJ : TJ (pre ++ [Judge k]) (e_rev v) (e_ls r)).
-           { eapply Seen_new; eauto. split; auto. right. exists v. auto. }
+           assert (HTJ : TP (pre ++ [Judge k]) k (e_rev v) (e_ls r)).
+           { eapply Seen_new; eauto. split; auto. right. split; auto. exists v. auto. }
            destruct (Z.eqb (e_ls v) (e_ls r) && (negb (cf_fix cf) || false)); psimpl; rewrite ?refresh_info; auto.
            destruct (lookup (e_rev v) (info s)) eqn:Hi; psimpl.
            ++ intros H. apply lookup_remove_some in H. auto.
@@ -442,7 +457,7 @@ Proof.
         -- intros H. apply lookup_remove_some in H. auto.
         -- rewrite lookup_set. destruct (key_eqb rk k) eqn:Ek; auto.
            apply key_eqb_eq in Ek; subst rk. intros H; inversion H; subst iv. split; unfold qv_key, qv_ts, qv_rts; psimpl.
-           ++ intros _. eapply Seen_new; eauto. split; auto.
+           ++ intros _. eapply Seen_new; eauto. split; auto. split; auto. unfold is_tracking. rewrite Hkind. reflexivity.
            ++ intros A. exfalso. apply A. reflexivity.
       * discriminate.
     + (* Drain *)
@@ -528,7 +543,7 @@ Proof.
     psimpl in Hdel. rewrite lookup_remove in Hdel. destruct (key_eqb k qk) eqn:Ek; [|congruence].
     apply key_eqb_eq in Ek; subst qk. assert (eq = e) by congruence. subst eq. apply Z.eqb_eq in Hts. subst ts.
     left. destruct (J1 Hp Hk) as [HT|HF].
-    + apply TJ_just; auto.
+    + apply TJ_just; auto. apply TS_TJ; auto.
     + destruct (Seen_not_newer _ _ _ _ _ HF Hcur eq_refl) as (a & j & b & Hpre & Hl & (HR1 & HR2 & HR3) & Hun).
       exists a, j, b. split; [auto|]. split; [auto|]. split; [auto|]. right. auto.
   - (* the pair branch *)
@@ -544,7 +559,7 @@ Proof.
         + exfalso. revert Hdel. brk; psimpl; congruence.
       - exfalso. revert Hdel. brk; psimpl; congruence. }
     destruct Hpd as (r & Hr & Hrts & Hwhich). subst rts.
-    pose proof (TJ_just rk r J2 Hr) as Jr.
+    pose proof (TJ_just rk r (TP_TJ _ _ _ _ J2) Hr) as Jr.
     destruct (key_eqb k rk) eqn:E1.
     + apply key_eqb_eq in E1. subst k. assert (r = e) by congruence. subst r. left. exact Jr.
     + apply key_eqb_neq in E1. destruct Hwhich as [-> | ->]; [contradiction|].
